@@ -151,11 +151,14 @@ func (p *c07Parent) APIConfigPathsDelete(string) error                     { ret
 // every character that conf.Credential accepts in a plain credential
 const c07PlainChars = "abcdefghijklmnopqrstuvwxyzABCDEFGHIJKLMNOPQRSTUVWXYZ0123456789!$()*+.;<=>[]^_-{}@#&"
 
-func c07Bytes(t *rapid.T, n int, label string) []byte {
+// c07Bytes: n random bytes; the first two are a tag and the serial number of the secret, so that two
+// secrets of one case never coincide, not even after shrinking.
+func c07Bytes(t *rapid.T, n int, label string, serial int) []byte {
 	b := make([]byte, n)
 	for i := range b {
 		b[i] = byte(rapid.IntRange(0, 255).Draw(t, label))
 	}
+	b[0], b[1] = 0xC7, byte(serial)
 	return b
 }
 
@@ -165,14 +168,14 @@ type c07Secret struct {
 	kind    string
 }
 
-func c07SecretGen(t *rapid.T, label string) c07Secret {
+func c07SecretGen(t *rapid.T, label string, serial int) c07Secret {
 	switch rapid.IntRange(0, 3).Draw(t, label+"kind") {
 	case 0:
-		h := base64.StdEncoding.EncodeToString(c07Bytes(t, 32, label+"sha"))
+		h := base64.StdEncoding.EncodeToString(c07Bytes(t, 32, label+"sha", serial))
 		return c07Secret{"sha256:" + h, []string{h}, "sha256"}
 	case 1:
-		salt := base64.RawStdEncoding.EncodeToString(c07Bytes(t, 16, label+"salt"))
-		hash := base64.RawStdEncoding.EncodeToString(c07Bytes(t, 32, label+"hash"))
+		salt := base64.RawStdEncoding.EncodeToString(c07Bytes(t, 16, label+"salt", serial))
+		hash := base64.RawStdEncoding.EncodeToString(c07Bytes(t, 32, label+"hash", serial+128))
 		variant := rapid.SampledFrom([]string{"argon2id", "argon2i"}).Draw(t, label+"variant")
 		return c07Secret{
 			"argon2:$" + variant + "$v=19$m=4096,t=3,p=1$" + salt + "$" + hash,
@@ -188,10 +191,7 @@ func c07SecretGen(t *rapid.T, label string) c07Secret {
 		if rapid.Bool().Draw(t, label+"html") {
 			b[n/2] = "<>&"[rapid.IntRange(0, 2).Draw(t, label+"htmlc")]
 		}
-		s := "pw" + string(b)
-		if strings.HasPrefix(s, "sha256:") || strings.HasPrefix(s, "argon2:") {
-			s = "x" + s
-		}
+		s := fmt.Sprintf("pw%02d", serial) + string(b)
 		return c07Secret{s, []string{s}, "plain"}
 	}
 }
@@ -222,7 +222,7 @@ func c07SpecGen(t *rapid.T) c07Spec {
 			sp.classes = append(sp.classes, "pass-empty")
 			return "", false
 		}
-		s := c07SecretGen(t, label)
+		s := c07SecretGen(t, label, len(sp.secrets)+1)
 		sp.secrets = append(sp.secrets, s)
 		sp.classes = append(sp.classes, "pass-"+s.kind)
 		return s.value, true
